@@ -1,4 +1,5 @@
 SPECIFICATION TSpec
 CONSTRAINT HighWater
+VIEW TView
 POSTCONDITION TraceAccepted
 CHECK_DEADLOCK FALSE
